@@ -249,7 +249,10 @@ def main():
     t0 = time.time()
     scratch = os.path.join(VERIF, '.scratch', f'{pid}-{os.getpid()}')
     os.makedirs(scratch, exist_ok=True)
-    evidence_path = os.path.join(VERIF, 'evidence', f'{pid}.json')
+    # runs against another tree (SIMPROCESD_REPO, used when evaluating seeded changes) must not overwrite the
+    # evidence of the tree under verification
+    alt = os.environ.get('SIMPROCESD_REPO', '/repo').rstrip('/') != '/repo'
+    evidence_path = os.path.join(VERIF, 'evidence', 'other-tree' if alt else '', f'{pid}.json')
     os.makedirs(os.path.dirname(evidence_path), exist_ok=True)
     violations = []       # (replay path, suffix)
     known_lines = []
